@@ -174,7 +174,7 @@ var c12MapRangeTable = map[string]string{
 }
 
 func runC12(c *core.Ctx) {
-	c.Rule("R1", "the shard is a function of ring content, identifier and size: seeded PRNG only; order-insensitive map iterations", 12)
+	c.Rule("R1", "the shard is a function of ring content, identifier and size: seeded PRNG only; order-insensitive map iterations", 50)
 	c.Rule("R2", "without look-back the result is independent of the clock", 6)
 	c.Rule("R3", "read-only instances enter a shard only through the inclusion predicate, whose table is exact", 4)
 	c.Rule("R4", "partition variant seeds with ShuffleShardSeed(identifier, \"\")", 1)
